@@ -117,6 +117,6 @@ func GenChainPlan(rt *rapid.T, p *GenParams) *ChainPlan {
 }
 
 // doAdversarial executes adversarial / failing operations (badtx, badblock, ...).
-func (r *chainRun) doAdversarial(st *CStep, n *Node, v *nodeView, failed *bool) *Violation {
+func (r *chainRun) doAdversarial(st *CStep, n *Node, v *nodeView, failed *bool, failKind *string) *Violation {
 	return nil
 }
